@@ -197,6 +197,8 @@ def _norm(v):
 
 def evaluator(log=None, borrowed=()):
     def category_for(rv, a):
+        if rv != A("plural-rules"):
+            return NotImplemented        # the code's own method of that name
         n = a[0]
         if n[0] == "int":
             return C(CATEGORY.get(n[1], "Other"))
